@@ -83,6 +83,17 @@ def setup_env():
 
 def _worker_init():
     setup_env()
+    # a changed halmos may blow up memory on some input (e.g. a buffer appended to itself): the worker then fails with MemoryError
+    # (reported as a crash of that case) instead of taking the machine down.  VERIF_WORKER_AS_GB=0 switches the limit off.
+    gb = float(os.environ.get("VERIF_WORKER_AS_GB", "6"))
+    if gb > 0:
+        import resource
+
+        lim = int(gb * (1 << 30))
+        try:
+            resource.setrlimit(resource.RLIMIT_AS, (lim, lim))
+        except (ValueError, OSError):
+            pass
     import logging
 
     logging.disable(logging.NOTSET)
